@@ -159,7 +159,12 @@ func workerMain(rc *runCtx) {
 		if rc.Tier == "thorough" {
 			maxStates, fb = 3_000_000, 3
 		}
-		st := ExploreAuto(scs[idx], ExploreOpts{Deadline: time.UnixMilli(dl), MaxStates: maxStates, FallbackBound: fb})
+		var st *ExploreStats
+		if scs[idx].Seq != nil {
+			st = ExploreSeq(scs[idx].Seq, time.UnixMilli(dl))
+		} else {
+			st = ExploreAuto(scs[idx], ExploreOpts{Deadline: time.UnixMilli(dl), MaxStates: maxStates, FallbackBound: fb})
+		}
 		b, _ := json.Marshal(st)
 		fmt.Fprintf(out, "%d %s\n", idx, b)
 		out.Flush()
@@ -256,7 +261,11 @@ func runE1(rc *runCtx, scs []*Scenario) *e1Summary {
 		sum.Trans += st.Transitions
 		sum.Execs += st.Executions
 		sum.Complete += st.Complete
-		sum.Outcomes += len(st.Outcomes)
+		if st.OutcomeCount > 0 {
+			sum.Outcomes += st.OutcomeCount
+		} else {
+			sum.Outcomes += len(st.Outcomes)
+		}
 		if st.Infra != "" {
 			sum.Infra = append(sum.Infra, st.Scenario+": "+st.Infra)
 		}
@@ -269,10 +278,15 @@ func runE1(rc *runCtx, scs []*Scenario) *e1Summary {
 		} else if st.Exhaustive {
 			sum.Unbounded++
 		}
-		if len(st.Outcomes) <= 1 && len(st.Violations) == 0 && scs[i].ExpectOutcomes > 1 {
+		if len(st.Outcomes) <= 1 && st.OutcomeCount <= 1 && len(st.Violations) == 0 && scs[i].ExpectOutcomes > 1 {
 			sum.Vacuous = append(sum.Vacuous, st.Scenario)
 		}
 		for _, v := range st.Violations {
+			if scs[i].Seq != nil {
+				sum.Findings = append(sum.Findings, Finding{Property: rc.Prop, Signature: v.Signature, Detail: fmt.Sprintf("sequence search: %s\n%s\nevent sequence:\n  %s", st.Scenario, v.Detail, strings.Join(v.History, "\n  ")),
+					Replay: map[string]interface{}{"engine": "E2", "property": rc.Prop, "tier": rc.Tier, "scenario": st.Scenario, "events": v.Events}})
+				continue
+			}
 			sum.Findings = append(sum.Findings, Finding{Property: rc.Prop, Signature: v.Signature, Detail: fmt.Sprintf("scenario: %s\n%s: %s\nhistory:\n  %s\nschedule:\n  %s", st.Scenario, v.Kind, v.Detail, strings.Join(v.History, "\n  "), strings.Join(v.Schedule, "\n  ")),
 				Replay: map[string]interface{}{"engine": "E1", "property": rc.Prop, "tier": rc.Tier, "scenario": st.Scenario, "choices": v.Choices, "kind": v.Kind}})
 		}
